@@ -283,6 +283,8 @@ type Req struct {
 	Sym     plugin.Symbolizer
 	UI      *UI
 	Writer  *Writer
+	// DefaultRT: leave Options.HTTPTransport unset, so that pprof uses its own HTTP(S) transport
+	DefaultRT bool
 	// StdUI: leave Options.UI unset, so that pprof prints its messages itself (to the process's stderr)
 	StdUI bool
 	// OSWriter: leave Options.Writer unset, so that pprof writes output files itself (relative to the working directory)
@@ -396,7 +398,7 @@ func run(q Req, capture bool) *Res {
 	if o.Sym == nil && !q.DefaultSym {
 		o.Sym = NoSym{}
 	}
-	if o.HTTPTransport == nil {
+	if o.HTTPTransport == nil && !q.DefaultRT {
 		o.HTTPTransport = failRT{}
 	}
 	res := &Res{W: w, UI: ui, F: fe}
